@@ -4,6 +4,11 @@ import json, os, sys
 HERE = os.path.dirname(os.path.dirname(os.path.abspath(__file__)))
 
 CHECKS = {
+ "C19": dict(
+   technique="bounded-exhaustive enumeration of route paths per platform + Hypothesis arbitrary token strings; totality with exception bucketing, validator checks and round trip through the generated canonical URL",
+   text="Per platform every path of 0-3 segments over the full route vocabulary and 4 (quick) / 4-5 (thorough) over a reduced one, crossed with hosts, query panels, fragment routing, trailing slash and options; well-formed seed URLs; arbitrary strings through every public function of the six modules. Any exception other than the documented TypeError of convert_* is a violation bucketed by innermost ural frame; record ids must satisfy the module's validators; parse(record.url) == record, parse(normalize_youtube_url(u)) == parse(u), normalize idempotent.",
+   note="Open known findings (route words as handles, unquoted record fields, stdlib-unparseable strings) are excused only for their own relation/trigger; see known_findings.json.",
+   design="§4 C19"),
  "C18": dict(
    technique="exhaustive enumeration over the bundled domain lists x look-alike host variants x decoys x four input forms against a reference membership predicate; Hypothesis random hosts; pairwise invariance cases",
    text="Every shortener / should-resolve / YouTube domain and the four pattern-based sites, in 10 host variants (exact, upper, subdomains, glued labels, foreign suffix, dot replaced, ...), with homepage/non-homepage paths and decoys naming site domains in userinfo/path/query/fragment, evaluated in the http(s), scheme-less, '//' and SplitResult forms; is_shortened_url => should_resolve; invariance of is_homepage/could_be_html (path only) and has_special_host/get_hostname (host only). Exhaustive over the lists within the stated variants.",
